@@ -3,6 +3,7 @@ import Proofs.C19Bits
 import Proofs.C19Time
 import Proofs.C19Decode
 import Proofs.C19Gen
+import Proofs.C19Order
 /-!
 # C19 — UUIDs parse, print and carry time faithfully; generated time-UUIDs are unique (property theorems)
 
@@ -142,6 +143,79 @@ theorem C19_min_max_bound_time (sec : Int) (nsec : Nat) (hr : Representable sec 
 
 /-- a signed-byte order is needed: 0x80 sorts below 0x7f here (non-vacuity of the "signed" part) -/
 example : Spec.sLexLe [0x80] [0x7f] = true ∧ Spec.sLexLe [0x7f] [0x80] = false := by decide
+
+/-! ### Cassandra's order at full strength: the bounds are EXACT, and they delimit time ranges
+
+`MinTimeUUID` / `MaxTimeUUID` exist "to select a time range of a Cassandra's TimeUUID column" (uuid.go). What such a
+query selects is decided by Cassandra's comparison alone; the theorems below say which version-1 RFC 4122 UUIDs
+that is, for every pair of representable instants and every UUID. -/
+
+/-- Cassandra's comparison (`Spec.cassLe`: timestamp, then the low 8 bytes as signed bytes) is a total preorder on
+    all byte strings, and antisymmetric on what it compares: two 16-byte values each ≤ the other have the same
+    timestamp field and the same clock-sequence and node bytes. -/
+theorem C19_cass_order (u v w : List UInt8) :
+    Spec.cassLe u u = true ∧
+    (Spec.cassLe u v = true ∨ Spec.cassLe v u = true) ∧
+    (Spec.cassLe u v = true → Spec.cassLe v w = true → Spec.cassLe u w = true) ∧
+    (u.length = 16 → v.length = 16 → Spec.cassLe u v = true → Spec.cassLe v u = true →
+      Spec.rfcTimestamp u = Spec.rfcTimestamp v ∧ u.drop 8 = v.drop 8) :=
+  ⟨cassLe_refl u, cassLe_total u v, cassLe_trans u v w, cassLe_antisymm u v⟩
+
+/-- The bounds of an instant are EXACT: a version-1 RFC 4122 UUID lies between `MinTimeUUID(t)` and
+    `MaxTimeUUID(t)` under Cassandra's order IF AND ONLY IF its timestamp is `t`'s 100 ns tick
+    (`C19_min_max_bound_time` is the direction ⇐). -/
+theorem C19_min_max_exact (sec : Int) (nsec : Nat) (hr : Representable sec nsec) (u : List UInt8)
+    (hl : u.length = 16) (hv : version u = 1) (hvar : variant u = 2) :
+    (Spec.cassLe (minTimeUUID sec nsec) u = true ∧ Spec.cassLe u (maxTimeUUID sec nsec) = true) ↔
+    timestamp u = tick (sec, nsec) := by
+  rw [min_le_iff (sec, nsec) hr u hl hv hvar, le_max_iff (sec, nsec) hr u hl hv hvar]
+  omega
+
+/-- Inclusive range `id >= minTimeuuid(a) AND id <= maxTimeuuid(b)`: selects exactly the version-1 RFC 4122 UUIDs
+    whose timestamp lies in `[tick a, tick b]` — none of instant `a` or `b` is lost, none outside is included. -/
+theorem C19_range_inclusive (a b : Int × Nat) (ha : Representable a.1 a.2) (hb : Representable b.1 b.2)
+    (u : List UInt8) (hl : u.length = 16) (hv : version u = 1) (hvar : variant u = 2) :
+    (Spec.cassLe (minTimeUUID a.1 a.2) u = true ∧ Spec.cassLe u (maxTimeUUID b.1 b.2) = true) ↔
+    (tick a ≤ timestamp u ∧ timestamp u ≤ tick b) := by
+  rw [min_le_iff a ha u hl hv hvar, le_max_iff b hb u hl hv hvar]
+
+/-- Exclusive range `id > maxTimeuuid(a) AND id < minTimeuuid(b)` (strictly above / below = not ≤ / not ≥):
+    selects exactly the UUIDs whose timestamp lies strictly between the two ticks — every UUID of instant `a` and
+    of instant `b` is excluded, whatever its clock sequence and node. -/
+theorem C19_range_exclusive (a b : Int × Nat) (ha : Representable a.1 a.2) (hb : Representable b.1 b.2)
+    (u : List UInt8) (hl : u.length = 16) (hv : version u = 1) (hvar : variant u = 2) :
+    (Spec.cassLe u (maxTimeUUID a.1 a.2) = false ∧ Spec.cassLe (minTimeUUID b.1 b.2) u = false) ↔
+    (tick a < timestamp u ∧ timestamp u < tick b) := by
+  rw [max_lt_iff a ha u hl hv hvar, lt_min_iff b hb u hl hv hvar]
+
+/-- The bounds of different ticks never overlap: if `a`'s tick is before `b`'s, everything of instant `a`
+    (up to and including `MaxTimeUUID(a)`) is strictly below everything of instant `b` (from `MinTimeUUID(b)` on);
+    and instants are mapped to ticks monotonically (`(sec - base)·10^7 + nsec/100`, exactly). -/
+theorem C19_bounds_monotone (a b : Int × Nat) (ha : Representable a.1 a.2) (hb : Representable b.1 b.2) :
+    (readingLe a b → tick a ≤ tick b) ∧
+    (tick a < tick b →
+      Spec.cassLe (maxTimeUUID a.1 a.2) (minTimeUUID b.1 b.2) = true ∧
+      Spec.cassLe (minTimeUUID b.1 b.2) (maxTimeUUID a.1 a.2) = false) ∧
+    Spec.cassLe (minTimeUUID a.1 a.2) (maxTimeUUID a.1 a.2) = true := by
+  refine ⟨tick_mono a b ha hb, fun h => ?_, ?_⟩
+  · exact cassLe_of_ts_lt _ _ (by rw [rfcTs_max a ha, rfcTs_min b hb]; exact h)
+  · apply (min_le_iff a ha _ (with_length ..) (version_with ..) (variant_with ..)).mpr
+    rw [timestamp_eq_rfc _ (with_length ..) (version_with ..)]
+    exact Nat.le_of_eq (rfcTs_max a ha).symm
+
+/-- "RFC 4122" in the property text is needed: a version-1 value of the same timestamp whose variant bits are
+    not `10` (byte 8 = 0x7f, a legal NCS-variant value) sorts ABOVE `MaxTimeUUID` — the maximum's own byte 8 is
+    0xbf (= -65 signed) because `TimeUUIDWith` stamps the variant over the clock constant 0x7f7f. -/
+theorem C19_cex_bound_needs_variant :
+    version [0, 0, 0, 0, 0, 0, 0x10, 0, 0x7f, 0, 0, 0, 0, 0, 0, 0] = 1 ∧
+    timestamp [0, 0, 0, 0, 0, 0, 0x10, 0, 0x7f, 0, 0, 0, 0, 0, 0, 0] = tick (timeBase, 0) ∧
+    Spec.cassLe [0, 0, 0, 0, 0, 0, 0x10, 0, 0x7f, 0, 0, 0, 0, 0, 0, 0] (maxTimeUUID timeBase 0) = false := by
+  decide
+
+/-- non-vacuity: an instant, a UUID of the next tick, and the ranges that do / do not contain it -/
+example : tick (1700000000, 123456789) = 139192928000000000 + 1234567 := by decide
+example : Spec.cassLe (timeUUIDWith (139192928000000000 + 1234568) 0x8080 [0x80, 0x80, 0x80, 0x80, 0x80, 0x80])
+    (maxTimeUUID 1700000000 123456789) = false := by decide
 
 /-! ## The decoding entry points and the DESTINATION they are called on
 Model: `Model/UuidDecode.lean` — `ParseUUID` as written (every digit OR-ed into an array), `UnmarshalText`,
